@@ -72,6 +72,7 @@ type Exploration struct {
 	allShared bool
 	mutexVC map[*Mutex][]int
 	mutexID map[*Mutex]int
+	atomicVC map[uintptr][]int
 	onceVC  map[*Once][]int
 	steps   int
 	MaxSteps int
@@ -244,6 +245,29 @@ func RWP[T any](p *T, site string) *T {
 	return p
 }
 
+// AtomicP is wrapped around the address operand of a sync/atomic call: a scheduling point (if the word is
+// shared) and a release/acquire pair on that address (Go's atomics are sequentially consistent).
+func AtomicP[T any](p *T, site string) *T {
+	e := active.Load()
+	if e == nil {
+		return p
+	}
+	t := curThread.Load()
+	if t == nil {
+		return p
+	}
+	a := uintptr(unsafe.Pointer(p))
+	if a != 0 && e.isShared(a) {
+		e.point(t, "atomic", site)
+	}
+	if vc, ok := e.atomicVC[a]; ok {
+		joinVC(t.vc, vc)
+	}
+	t.vc[t.id]++
+	e.atomicVC[a] = append([]int{}, t.vc...)
+	return p
+}
+
 // RM is wrapped around a map that is read (index, range, len).
 func RM[M any](m M, site string) M {
 	if e := active.Load(); e != nil {
@@ -363,7 +387,7 @@ type Options struct {
 // Run executes the thread bodies once under the schedule prefix (then default choices) and returns the execution.
 func Run(bodies []func() any, prefix []int, opt Options) *Exploration {
 	e := &Exploration{yield: make(chan *thread), prefix: prefix, Races: map[string]Race{}, shadow: map[uintptr]*shadow{},
-		mutexVC: map[*Mutex][]int{}, mutexID: map[*Mutex]int{}, onceVC: map[*Once][]int{}, MaxSteps: opt.MaxSteps}
+		mutexVC: map[*Mutex][]int{}, mutexID: map[*Mutex]int{}, atomicVC: map[uintptr][]int{}, onceVC: map[*Once][]int{}, MaxSteps: opt.MaxSteps}
 	if e.MaxSteps == 0 {
 		e.MaxSteps = 200000
 	}
